@@ -13,6 +13,7 @@ from py_gql.schema import (
 from py_gql.schema.introspection import is_introspection_type
 from py_gql.schema.transforms import CamelCaseSchemaTransform, VisibilitySchemaTransform, transform_schema
 from py_gql.sdl import extend_schema
+from py_gql.exc import SchemaValidationError
 from py_gql.utilities import introspection_query
 from harness import sdlgen as S
 
@@ -126,6 +127,31 @@ def closed(schema):
             p = chk(a.type, "@%s(%s)" % (d.name, a.name))
             if p:
                 return p
+    return derived_indexes(schema)
+
+
+def derived_indexes(schema):
+    """the indexes the schema derives from its registry (implementations, possible types) agree with the registry: they are what queries and
+    introspection consult, so a removed / replaced type that survives there is still reachable"""
+    reg = schema.types
+    for name, t in reg.items():
+        if isinstance(t, InterfaceType):
+            exp = sorted(o.name for o in reg.values() if isinstance(o, ObjectType) and any(i.name == name for i in o.interfaces))
+            listed = list(schema.implementations.get(name, []))
+            for o in listed:
+                if reg.get(o.name) is not o:
+                    return "implementations[%s] lists %s which is not the registered object" % (name, o.name)
+            if sorted(o.name for o in listed) != exp:
+                return "implementations[%s] = %r, the registry says %r" % (name, sorted(o.name for o in listed), exp)
+        if isinstance(t, (InterfaceType, UnionType)):
+            poss = list(schema.get_possible_types(t))
+            for o in poss:
+                if reg.get(o.name) is not o:
+                    return "get_possible_types(%s) yields %s which is not the registered object" % (name, o.name)
+            exp = sorted(m.name for m in t.types) if isinstance(t, UnionType) else sorted(
+                o.name for o in reg.values() if isinstance(o, ObjectType) and any(i.name == name for i in o.interfaces))
+            if sorted(o.name for o in poss) != exp:
+                return "get_possible_types(%s) = %r, the registry says %r" % (name, sorted(o.name for o in poss), exp)
     return ""
 
 
@@ -463,6 +489,97 @@ def _op_sequences(src: int, o1: int, a1: int, o2: int, a2: int, o3: int, a3: int
     return result(problem == "", len(ops) >= 2)
 
 
+# ---------------------------------------------------------------- hide_sets: every set of hidden named types
+class HideTypes(VisibilitySchemaTransform):
+    def __init__(self, hidden):
+        self.hidden = hidden
+
+    def is_type_visible(self, name):
+        return name not in self.hidden
+
+
+HIDE_QUERY = "{ __schema { types { name possibleTypes { name } interfaces { name } fields { name type { name ofType { name ofType { name ofType { name } } } } } } } }"
+_KEEP = ("Int", "Float", "String", "Boolean", "ID", "Query")
+
+
+def hideable(schema):
+    return sorted(n for n in schema.types if not n.startswith("__") and n not in _KEEP)
+
+
+def hidden_leaks(schema, hidden):
+    """'' or how a hidden type is still reachable from the derived schema (registry, derived indexes, introspection)"""
+    for h in hidden:
+        if h in schema.types:
+            return "hidden type %s is still registered" % h
+    res = graphql_blocking(schema, HIDE_QUERY)
+    if res.errors:
+        return "introspection fails: %r" % (res.errors,)
+    types = res.data["__schema"]["types"]
+    listed = {t["name"] for t in types}
+    for t in types:
+        for k in ("possibleTypes", "interfaces"):
+            for x in t[k] or []:
+                if x["name"] not in listed or x["name"] in hidden:
+                    return "%s.%s names %s, which is hidden / not a listed type" % (t["name"], k, x["name"])
+        for f in t["fields"] or []:
+            ty = f["type"]
+            while ty is not None:
+                if ty["name"] is not None and (ty["name"] not in listed or ty["name"] in hidden):
+                    return "%s.%s is of type %s, which is hidden / not a listed type" % (t["name"], f["name"], ty["name"])
+                ty = ty.get("ofType")
+    for name in hidden:
+        r = graphql_blocking(schema, '{ __type(name: "%s") { name } }' % name)
+        if r.errors or r.data["__type"] is not None:
+            return "__type(name: %s) still answers" % name
+    return ""
+
+
+def one_bit(a) -> bool:
+    return a == 0 or a == 1 or a == 2 or a == 4 or a == 8 or a == 16 or a == 32 or a == 64 or a == 128 or a == 256 or a == 512 or a == 1024
+
+
+def _hide_sets(src: int, mask: int, again: int) -> bool:
+    """
+    pre: 0 <= src < 2 and 0 <= mask < 2048 and 0 <= again <= 3
+    pre: thorough() or again == 0 or one_bit(mask)
+    pre: shard_of(mask)
+    post: _
+    """
+    SRC, MASK, AGAIN = concrete_int(src, 0, 1), concrete_int(mask, 0, 2047), concrete_int(again, 0, 3)
+    with untraced():
+        source = SOURCES[SRC]()
+        names = hideable(source)
+        if MASK >= (1 << len(names)):
+            return result(True, False)
+        hidden = [n for i, n in enumerate(names) if MASK >> i & 1]
+        before_attrs, before_sdl = attrs(source), source.to_string()
+        problem = ""
+        try:
+            res = transform_schema(source, HideTypes(hidden))
+        except SchemaValidationError:
+            return result(True, False)       # e.g. a union left without members: refusing is an answer
+        if AGAIN == 1:
+            # the same transform applied to the same source a second time gives the same schema
+            second = transform_schema(source, HideTypes(hidden))
+            if attrs(second) != attrs(res) or second.to_string() != res.to_string():
+                problem = "the second application of the same transform to the same source gives another schema"
+            res = second
+        elif AGAIN == 2:
+            res = res.clone()
+        elif AGAIN == 3:
+            res = transform_schema(res, HideTypes([]))      # a pass that hides nothing
+        problem = problem or closed(res) or hidden_leaks(res, hidden)
+        if not problem:
+            try:
+                res.validate()
+                res.to_string()
+            except Exception as e:  # noqa
+                problem = "derived schema unusable: %r" % (e,)
+        if not problem and (closed(source) or attrs(source) != before_attrs or source.to_string() != before_sdl):
+            problem = "source modified"
+    return result(problem == "", MASK > 0)
+
+
 def vis_mask_in_tier(o, a, o2) -> bool:
     if o != 3:
         return True
@@ -473,6 +590,15 @@ def vis_mask_in_tier(o, a, o2) -> bool:
 
 
 CONDITIONS = [
+    Cond(
+        name="hide_sets", fn=_hide_sets, quick=150, thorough=600, per_path=60, shards_quick=16, shards_thorough=16,
+        bound="2 source schemas (code-built, SDL-built) x EVERY set of hidden named types (2^9 / 2^11 predicates: objects reachable only through an interface, a union or types=, interfaces, unions, enums, "
+              "input objects, scalars, root types) x what happens next (nothing, the same transform again on the same source, clone of the result, a further pass hiding nothing; quick: follow-ups only for sets of <= 1 type): the derived schema is closed, "
+              "its derived indexes (implementations, possible types) agree with its registry, no hidden type is registered or reachable through introspection (types, possibleTypes, interfaces, field types, __type), "
+              "it validates and prints, the source is untouched; a refusal with SchemaValidationError (a union left without members) is accepted",
+        symbolic={"src": "choice", "mask": "choice: the set of hidden types", "again": "choice: follow-up"}, assumptions=["oracle: closed() + derived_indexes() + hidden_leaks()"],
+        witness={"src": 0, "mask": 64, "again": 0},
+    ),
     Cond(
         name="op_sequences", fn=_op_sequences, quick=200, thorough=1200, per_path=90, shards_quick=20, shards_thorough=20,
         bound="3 source schemas (code-built with resolvers / default resolvers / type resolvers / subscription resolver / python names / defaults incl. explicit null defaults / descriptions / deprecations; SDL-built with registered resolvers, "
